@@ -6,6 +6,8 @@
 -/
 import Proofs.Veto
 import Proofs.Dispatch
+import Proofs.ReadOnly2
+import Proofs.CtxUser
 
 namespace AuthbossModel.M
 attribute [local irreducible] Frame Lic
@@ -74,6 +76,199 @@ theorem C03_password_login (c0 : Ctx)
   · refine absurd hfb (C03_unconfirmed_veto _ ?_ u ?_ hun _)
     · exact hC
     · rfl
+
+/-! ### The other login flows (handler level) -/
+
+theorem logf_ok {f a c x c'} (h : M.logf f a c = (Res.ok x, c')) :
+    c'.ctxUser = c.ctxUser ∧ c'.now = c.now ∧ c'.cfg = c.cfg := by
+  have := modify_ok h; subst this; exact ⟨rfl, rfl, rfl⟩
+
+set_option maxHeartbeats 2000000 in
+/-- **C03_otp_login.** The one-time-password login adds no session identity when the named
+account is locked or unconfirmed. -/
+theorem C03_otp_login (c0 : Ctx)
+    (hblocked : ∀ u, c0.store.find c0.req.pid = some u →
+      (c0.cfg.has .lock = true ∧ u.locked > c0.now) ∨ (c0.cfg.has .confirm = true ∧ u.confirmed = false)) :
+    Safe (fun _ => False) otpLoginPost c0 := by
+  unfold otpLoginPost
+  safe_auto
+  rename_i cA cB hget r u x i heq c8 hload x1 c7 hs1 x2 c6 hl1 x3 c5 hs2 b hb c4 hsv x4 c3 hm b1 hb1 c2 hfb b2 hb2 c1 hfh x5 cE hl2
+  obtain ⟨rfl, rfl⟩ := get_ok hget
+  obtain ⟨hfind, rfl⟩ := load_found hload
+  have e1 := setCtxUser_ok hs1; subst e1
+  have e2 := logf_ok hl1
+  have e3 := setCtxUser_ok hs2; subst e3
+  have e4 := save_ok hsv
+  have e5 := modify_ok hm; subst e5
+  have hb1' : b1 = false := Bool.eq_false_iff.mpr hb1
+  subst hb1'
+  exfalso
+  have ht1 : (tick c0).cfg = c0.cfg := rfl
+  have ht2 : (tick c0).now = c0.now := rfl
+  rcases hblocked u hfind with ⟨hL, hlk⟩ | ⟨hC, hun⟩
+  · refine absurd hfb (C03_locked_veto _ .auth (Or.inl rfl) ?_ { u with otps := swapRemove u.otps i } ?_ ?_ _)
+    · simpa [e4.2.2, e2.2.2, ht1] using hL
+    · simpa using e4.1
+    · simpa [e4.2.1, e2.2.1, ht2] using hlk
+  · refine absurd hfb (C03_unconfirmed_veto _ ?_ { u with otps := swapRemove u.otps i } ?_ hun _)
+    · simpa [e4.2.2, e2.2.2, ht1] using hC
+    · simpa using e4.1
+
+theorem pure_ok {α} {a b : α} {c c' : Ctx} (h : (Pure.pure a : H α) c = (Res.ok b, c')) : c' = c := by
+  simp [pure_apply] at h; exact h.2.symm
+
+set_option maxHeartbeats 4000000 in
+/-- **C03_totp_validate.** The TOTP step of a login adds no session identity when the user it
+resolved (the pending user, with a valid code or recovery code) is locked or unconfirmed —
+after the `fix:` that makes the second-factor steps consult `Before(EventAuth)`. -/
+theorem C03_totp_validate (c0 : Ctx)
+    (hblocked : ∀ u c', totpValidate c0 = (.ok (some (u, .success)), c') →
+      (c'.cfg.has .lock = true ∧ u.locked > c'.now) ∨ (c'.cfg.has .confirm = true ∧ u.confirmed = false)) :
+    Safe (fun _ => False) totpPostValidate c0 := by
+  unfold totpPostValidate
+  safe_auto
+  · -- replay protection on: the record is saved first
+    rename_i r u st hst c5 hv cg hot c4 hget sb hsb c3 hsave x1 c2 hpure x2 c1 hset b hb cE hfb
+    simp at hst; subst hst
+    have hbk := hblocked _ _ hv
+    obtain ⟨rfl, rfl⟩ := get_ok hget
+    have e1 := save_ok hsave
+    have e2 := pure_ok hpure; subst e2
+    have es := setCtxUser_ok hset; subst es
+    have hb' : b = false := Bool.eq_false_iff.mpr hb
+    subst hb'
+    exfalso
+    rcases hbk with ⟨hL, hlk⟩ | ⟨hC, hun⟩
+    · refine absurd hfb (C03_locked_veto _ .auth (Or.inl rfl) ?_ _ rfl ?_ _)
+      · simpa [e1.2.2] using hL
+      · simpa [e1.2.1] using hlk
+    · refine absurd hfb (C03_unconfirmed_veto _ ?_ _ rfl hun _)
+      simpa [e1.2.2] using hC
+  · rename_i r u st hst c3 hv cg hot c2 hget x2 c1 hset b hb cE hfb
+    simp at hst; subst hst
+    have hbk := hblocked _ _ hv
+    obtain ⟨rfl, rfl⟩ := get_ok hget
+    have es := setCtxUser_ok hset; subst es
+    have hb' : b = false := Bool.eq_false_iff.mpr hb
+    subst hb'
+    exfalso
+    rcases hbk with ⟨hL, hlk⟩ | ⟨hC, hun⟩
+    · refine absurd hfb (C03_locked_veto _ .auth (Or.inl rfl) ?_ _ rfl ?_ _)
+      · exact hL
+      · exact hlk
+    · refine absurd hfb (C03_unconfirmed_veto _ ?_ _ rfl hun _)
+      exact hC
+set_option maxHeartbeats 8000000 in
+/-- **C03_sms_validate.** Same for the SMS step (code from the session, or a recovery code). -/
+theorem C03_sms_validate (u : User) (c0 : Ctx)
+    (hblocked : ∀ u' c', smsVerdict .validate u c0 = (.ok (u', true), c') →
+      (c'.cfg.has .lock = true ∧ u'.locked > c'.now) ∨ (c'.cfg.has .confirm = true ∧ u'.confirmed = false)) :
+    Safe (fun _ => False) (smsValidateCode .validate u) c0 := by
+  unfold smsValidateCode
+  safe_auto
+  rename_i pg hpg cg c3 hget xv u' v hv c2 hverd x2 c1 hset b hb cE hfb
+  obtain ⟨rfl, rfl⟩ := get_ok hget
+  have hv' : v = true := by simpa using hv
+  subst hv'
+  have hbk := hblocked _ _ hverd
+  have es := setCtxUser_ok hset; subst es
+  have hb' : b = false := Bool.eq_false_iff.mpr hb
+  subst hb'
+  exfalso
+  rcases hbk with ⟨hL, hlk⟩ | ⟨hC, hun⟩
+  · refine absurd hfb (C03_locked_veto _ .auth (Or.inl rfl) ?_ _ rfl ?_ _)
+    · exact hL
+    · exact hlk
+  · refine absurd hfb (C03_unconfirmed_veto _ ?_ _ rfl hun _)
+    exact hC
+
+
+theorem ro_step {α} {h : H α} (hr : RO h) {c : Ctx} {a : α} {c' : Ctx} (he : h c = (Res.ok a, c')) :
+    c'.cfg = c.cfg ∧ c'.now = c.now := by
+  have := hr c; rw [he] at this; exact ⟨this.2.1, this.2.2⟩
+
+set_option maxHeartbeats 8000000 in
+/-- **C03_oauth2_locked.** An OAuth2 callback adds a session identity only for an account that
+does not exist yet (it is being created): for an *existing* account that is locked now, with
+the lock unit loaded anywhere, it never does. -/
+theorem C03_oauth2_locked (c0 : Ctx) (hl : c0.cfg.has .lock = true)
+    (hlocked : ∀ puid u, c0.req.provUid = some puid →
+      c0.store.find (makeOAuth2PID c0.req.provider puid) = some u → u.locked > c0.now) :
+    Safe (fun U => ∃ puid, c0.req.provUid = some puid ∧ U = makeOAuth2PID c0.req.provider puid ∧ c0.store.find U = none)
+      oauth2End c0 := by
+  unfold oauth2End
+  safe_auto
+  all_goals first
+    | -- the account exists: it is locked, the veto stops the flow
+      (
+       rename_i cg x2 want hst hsm hoe x1 puid hpu c10 hget x15 c9 hlog hrm hgd x13 c8 hd1 x11 c7 hd2 dl3 c6 hb1 dl2 c5 hb2 dl1 c4 hb3 xo u hfind dl c3 hb4 x5 c2 hmod x3 c1 hset b hb cE hfb
+       have hg := get_ok hget
+       obtain ⟨rfl, rfl⟩ := hg
+       exfalso
+       have r1 := ro_step (RO.modify _ (fun _ => ⟨rfl, rfl, rfl⟩)) hlog
+       have r2 := ro_step (RO.act _) hd1
+       have r3 := ro_step (RO.act _) hd2
+       have r4 := ro_step RO.backend hb1
+       have r5 := ro_step RO.backend hb2
+       have r6 := ro_step RO.backend hb3
+       have r7 := ro_step RO.backend hb4
+       have e8 := modify_ok hmod
+       subst e8
+       have e9 := setCtxUser_ok hset
+       subst e9
+       have hb' : b = false := Bool.eq_false_iff.mpr hb
+       subst hb'
+       have hcfg : c3.cfg = c0.cfg := by rw [r7.1, r6.1, r5.1, r4.1, r3.1, r2.1, r1.1]
+       have hnow : c3.now = c0.now := by rw [r7.2, r6.2, r5.2, r4.2, r3.2, r2.2, r1.2]
+       refine absurd hfb (C03_locked_veto _ .oauth2 (Or.inr rfl) ?_ _ rfl ?_ _)
+       · simpa [hcfg] using hl
+       · simpa [hnow] using hlocked puid u hpu hfind)
+    | -- a new account
+      (
+       rename_i cg x2 want hst hsm hoe x1 puid hpu c10 hget x15 c9 hlog hrm hgd x13 c8 hd1 x11 c7 hd2 dl3 c6 hb1 dl2 c5 hb2 dl1 c4 hb3 xo hfind dl c3 hb4 x5 c2 hmod x3 c1 hset b hb cE hfb
+       have hg := get_ok hget
+       obtain ⟨rfl, rfl⟩ := hg
+       unfold Lic
+       exact ⟨puid, hpu, rfl, hfind⟩)
+
+set_option maxHeartbeats 8000000 in
+/-- **C03_recover_login.** `recover.EndPost` with login-after-recovery adds no session identity
+when the account the token belongs to is locked or unconfirmed (the password is still changed). -/
+theorem C03_recover_login (c0 : Ctx)
+    (hblocked : ∀ raw u, c0.req.token = some raw → u ∈ c0.store.users → u.recoverSel = some (raw.take 32) →
+      (c0.cfg.has .lock = true ∧ u.locked > c0.now) ∨ (c0.cfg.has .confirm = true ∧ u.confirmed = false)) :
+    Safe (fun _ => False) recoverEndPost c0 := by
+  unfold recoverEndPost
+  safe_auto
+  rename_i cg c9 hget xt raw htok hlen hrl hval xu u hfindu hexp hver dl c8 hbk x15 c7 hs1 b1 hb1 c6 hfb1 b2 hb2 c5 hhash x9 c4 hs2 b3 hb3 c3 hsave b4 c2 hfa b5 hb5 c1 hfb b6 hb6 cE hfh
+  have hg := get_ok hget
+  obtain ⟨rfl, rfl⟩ := hg
+  exfalso
+  have hmem := List.mem_of_find?_eq_some hfindu
+  have r1 := ro_step RO.backend hbk
+  have r2 := ro_step (RO.setCtxUser _) hs1
+  have r3 := ro_step (RO.fireBefore _) hfb1
+  have r4 := ro_step RO.hash hhash
+  have r5 := ro_step (RO.setCtxUser _) hs2
+  have r6 := ro_step (RO.save _) hsave
+  have r7 := ro_step (RO.fireAfter _) hfa
+  have e5 := setCtxUser_ok hs2
+  have u6 := cu_step (CU.save _) hsave
+  have u7 := cu_step CU.fireAfter_recoverEnd hfa
+  have hb5' : b5 = false := Bool.eq_false_iff.mpr hb5
+  subst hb5'
+  have hcfg : c2.cfg = c0.cfg := by rw [r7.1, r6.1, r5.1, r4.1, r3.1, r2.1, r1.1]
+  have hnow : c2.now = c0.now := by rw [r7.2, r6.2, r5.2, r4.2, r3.2, r2.2, r1.2]
+  have hcu : c2.ctxUser = some { u with pw := c0.req.pw, recoverSel := none, recoverVer := none, recoverExpiry := c0.now } := by
+    rw [u7, u6, e5]
+  have hsel : u.recoverSel = some (raw.take 32) := by
+    have := List.find?_some hfindu; simpa using this
+  rcases hblocked raw u htok hmem hsel with ⟨hL, hlk⟩ | ⟨hC, hun⟩
+  · refine absurd hfb (C03_locked_veto _ .auth (Or.inl rfl) ?_ _ hcu ?_ _)
+    · simpa [hcfg] using hL
+    · simpa [hnow] using hlk
+  · refine absurd hfb (C03_unconfirmed_veto _ ?_ _ hcu hun _)
+    simpa [hcfg] using hC
 
 /-- **C03_lock_middleware / C03_confirm_middleware.** The wrapped handler is represented by an
 observable marker action (`putS uid m`, the one action the `Safe` logic tracks).  The
